@@ -647,6 +647,9 @@ func (w *World) Step() {
 func (w *World) Build() {
 	w.Refresh()
 	n := 1 + w.S.Draw(w.Prof.MaxTables, "ntables")
+	if w.Prof.MaxTables >= 20 {
+		n = w.Prof.MaxTables/2 + w.S.Draw(w.Prof.MaxTables/2, "ntables-many")
+	}
 	for i := 0; i < n; i++ {
 		w.CreateTable()
 	}
